@@ -139,6 +139,84 @@ static void res_str(char *s, int e) {
     keep(s, strlen(s) + 1);
 }
 
+
+/* ---- `inv`: every documented-invalid call (and the calls with the optional out-pointers left
+ * NULL) on the current state, `name=result:errno` per call; nothing may change. Not a windowed
+ * call (many library calls; an armed failure stays armed and cannot fire in here). */
+static const char *ename(int e) { return e == EIO ? "EIO" : errname(e); }
+static void iv_bool(const char *name, bool r) { int e = errno; printf(" %s=%s:%s", name, r ? "true" : "false", ename(e)); }
+static void iv_data(const char *name, void *d, size_t n, bool own) {
+    int e = errno;
+    printf(" %s=", name);
+    if (d == NULL) printf("null"); else { printf("data"); puthex(stdout, d, n); }
+    printf(":%s", ename(e));
+    if (d != NULL && own) vf_free(d);
+}
+static void iv_nat(const char *name, size_t v) { printf(" %s=%zu:0", name, v); }
+#define IVB(name, call) do { errno = 0; bool r_ = (call); iv_bool(name, r_); } while (0)
+
+static void inv_list(qlist_t *l) {
+    unsigned char x = 'x';
+    int n = (int) l->num;
+    size_t sz;
+    printf("inv");
+    IVB("addnull", qlist_addat(l, 0, NULL, 1));
+    IVB("addfirstnull", qlist_addfirst(l, NULL, 1));
+    IVB("addlastnull", qlist_addlast(l, NULL, 1));
+    IVB("addsize0", qlist_addat(l, 0, &x, 0));
+    IVB("addfirstsize0", qlist_addfirst(l, &x, 0));
+    IVB("addlastsize0", qlist_addlast(l, &x, 0));
+    IVB("addabove", qlist_addat(l, n + 1, &x, 1));
+    IVB("addbelow", qlist_addat(l, -n - 2, &x, 1));
+    errno = 0; sz = 4242; { void *d = qlist_getat(l, n, &sz, true); iv_data("getabove", d, sz, true); }
+    errno = 0; sz = 4242; { void *d = qlist_getat(l, -n - 1, &sz, false); iv_data("getbelow", d, sz, false); }
+    errno = 0; sz = 4242; { void *d = qlist_popat(l, n, &sz); iv_data("popabove", d, sz, true); }
+    errno = 0; sz = 4242; { void *d = qlist_popat(l, -n - 1, &sz); iv_data("popbelow", d, sz, true); }
+    IVB("removeabove", qlist_removeat(l, n));
+    IVB("removebelow", qlist_removeat(l, -n - 1));
+    IVB("nextnull0", qlist_getnext(l, NULL, false));
+    IVB("nextnull1", qlist_getnext(l, NULL, true));
+    IVB("debugnull", qlist_debug(l, NULL));
+    /* optional out-pointer left NULL: allowed */
+    errno = 0; { size_t fs = l->first ? l->first->size : 0; void *d = qlist_getfirst(l, NULL, true); iv_data("getfirstnosize", d, fs, true); }
+    errno = 0; { size_t ts = l->datasum; void *d = qlist_toarray(l, NULL); iv_data("toarraynosize", d, ts, true); }
+    /* setsize: the current value, the largest value and back */
+    { size_t m = l->max; iv_nat("setsame", qlist_setsize(l, m)); iv_nat("sethuge", qlist_setsize(l, (size_t) -1)); iv_nat("setback", qlist_setsize(l, m)); }
+}
+
+static void inv_qs(void) {
+    unsigned char x = 'x';
+    bool q = kind == K_QUEUE;
+    int n = (int) (q ? qqueue_size(Q) : qstack_size(S));
+    size_t sz;
+    printf("inv");
+    IVB("pushnull", q ? qqueue_push(Q, NULL, 1) : qstack_push(S, NULL, 1));
+    IVB("pushsize0", q ? qqueue_push(Q, &x, 0) : qstack_push(S, &x, 0));
+    IVB("pushstrnull", q ? qqueue_pushstr(Q, NULL) : qstack_pushstr(S, NULL));
+    errno = 0; sz = 4242; { void *d = q ? qqueue_getat(Q, n, &sz, true) : qstack_getat(S, n, &sz, true); iv_data("getabove", d, sz, true); }
+    errno = 0; sz = 4242; { void *d = q ? qqueue_getat(Q, -n - 1, &sz, false) : qstack_getat(S, -n - 1, &sz, false); iv_data("getbelow", d, sz, false); }
+    errno = 0; sz = 4242; { void *d = q ? qqueue_popat(Q, n, &sz) : qstack_popat(S, n, &sz); iv_data("popabove", d, sz, true); }
+    errno = 0; sz = 4242; { void *d = q ? qqueue_popat(Q, -n - 1, &sz) : qstack_popat(S, -n - 1, &sz); iv_data("popbelow", d, sz, true); }
+    IVB("debugnull", q ? qqueue_debug(Q, NULL) : qstack_debug(S, NULL));
+    errno = 0; { qlist_t *l = inner(); size_t fs = l->first ? l->first->size : 0;
+                 void *d = q ? qqueue_get(Q, NULL, true) : qstack_get(S, NULL, true); iv_data("getnosize", d, fs, true); }
+    { size_t m = inner()->max;
+      iv_nat("setsame", q ? qqueue_setsize(Q, m) : qstack_setsize(S, m));
+      iv_nat("sethuge", q ? qqueue_setsize(Q, (size_t) -1) : qstack_setsize(S, (size_t) -1));
+      iv_nat("setback", q ? qqueue_setsize(Q, m) : qstack_setsize(S, m)); }
+}
+
+static void inv_grow(void) {
+    unsigned char x = 'x';
+    printf("inv");
+    IVB("addnull", qgrow_add(G, NULL, 1));
+    IVB("addsize0", qgrow_add(G, &x, 0));
+    IVB("addstrempty", qgrow_addstr(G, ""));
+    IVB("addstrfempty", qgrow_addstrf(G, "%s", ""));
+    IVB("debugnull", qgrow_debug(G, NULL));
+    errno = 0; { size_t ts = G->list->datasum; void *d = qgrow_toarray(G, NULL); iv_data("toarraynosize", d, ts, true); }
+}
+
 static int do_list(int nw, char **w) {
     const char *op = w[0];
     bytes_t a = {0, 0};
@@ -210,6 +288,8 @@ static int do_list(int nw, char **w) {
             if (guard-- == 0) { printf(" ENDLESS"); break; }
         }
         printf(" end %s", errname(errno));
+    } else if (!strcmp(op, "inv") && nw == 1) {
+        inv_list(L);
     } else if (!strcmp(op, "reset") && nw == 1) {
         memset(&cur, 0, sizeof(cur)); printf("ok");
     } else if (!strcmp(op, "next") && nw == 2) {
@@ -279,6 +359,8 @@ static int do_qs(int nw, char **w) {
     } else if (!strcmp(op, "getat") && nw == 3) {
         int i = atoi(w[1]); bool nm = atoi(w[2]);
         void *d; WIN(d = q ? qqueue_getat(Q, i, &sz, nm) : qstack_getat(S, i, &sz, nm)); res_data(d, sz, E, nm);
+    } else if (!strcmp(op, "inv") && nw == 1) {
+        inv_qs();
     } else if (!strcmp(op, "size") && nw == 1) {
         printf("n %zu", q ? qqueue_size(Q) : qstack_size(S));
     } else if (!strcmp(op, "clear") && nw == 1) {
@@ -309,6 +391,14 @@ static int do_grow(int nw, char **w) {
         char *s = cstr_exact(&a);
         bool r; WIN(r = qgrow_addstrf(G, "%s=%d", s, atoi(w[2])));
         memset(s, 0xAA, a.n + 1); free(s); scribble_free(&a); res_bool(r, E);
+    } else if (!strcmp(op, "addstrfs") && nw == 2) {
+        /* format "%s": the formatted length is exactly the length of the argument (0 included) */
+        if (!unhex(w[1], &a)) return 0;
+        char *s = cstr_exact(&a);
+        bool r; WIN(r = qgrow_addstrf(G, "%s", s));
+        memset(s, 0xAA, a.n + 1); free(s); scribble_free(&a); res_bool(r, E);
+    } else if (!strcmp(op, "inv") && nw == 1) {
+        inv_grow();
     } else if (!strcmp(op, "size") && nw == 1) {
         printf("n %zu", qgrow_size(G));
     } else if (!strcmp(op, "datasize") && nw == 1) {
